@@ -11,7 +11,26 @@ _A_OPEN = re.compile(r'<a href="[^"<>\'\s]*"(?: rel="[^"<>\']*")?(?: target="[^"
 _A_CLOSE = "</a>"
 
 
-def clean(out: str, use_urlize: bool, use_xmlattr: bool, xml_keys):
+_ESC = {"&": "&amp;", "<": "&lt;", ">": "&gt;", "'": "&#39;", '"': "&#34;"}
+
+
+def escaped_form(s: str) -> str:
+    """HTML-escaped form of a plain string (docs/api.rst `escape`: "Convert the
+    characters &, <, >, ', and \" in string s to HTML-safe sequences")."""
+    return "".join(_ESC.get(c, c) for c in s)
+
+
+def key_passes_validation(k: str) -> bool:
+    """xmlattr docstring: a key containing a space, '/', '>' or '=' fails."""
+    return not re.search(r"[\s/>=]", k)
+
+
+def clean(out: str, use_urlize: bool, use_xmlattr: bool, xml_keys, key_strings=()):
+    """`key_strings`: the plain strings the case feeds to xmlattr as attribute
+    names.  A name="value" pair is recognised as documented xmlattr markup (and
+    removed) only when its name is one of the fixed metacharacter-free keys or
+    the *escaped* form of such a key string - never when the name part itself
+    contains a raw metacharacter."""
     if use_urlize:
         # only balanced open/close pairs are removed
         parts = []
@@ -35,7 +54,12 @@ def clean(out: str, use_urlize: bool, use_xmlattr: bool, xml_keys):
             i = k + len(_A_CLOSE)
         out = "".join(parts)
     if use_xmlattr:
-        keys = "|".join(re.escape(k) for k in xml_keys)
+        names = set(xml_keys)
+        for k in key_strings:
+            if isinstance(k, str) and k and key_passes_validation(k):
+                names.add(escaped_form(k))
+        names = sorted((n for n in names if not re.search(r"[<>'\"]", n)), key=lambda n: (-len(n), n))
+        keys = "|".join(re.escape(k) for k in names)
         out = re.sub(r'(?:' + keys + r')="[^"<>\']*"', "", out)
     return out
 
